@@ -12,24 +12,27 @@ import (
 type probe struct{}
 
 func (probe) AfterCommit(w *chain.World, blk *chain.BlockRecord) {
-	if blk.Height < 112 || blk.Height > 115 {
+	if blk.Height != 122 {
 		return
 	}
 	for _, t := range blk.Txs {
-		if strings.Contains(t.MsgType(), "leveragelp.MsgClosePositions") && t.Result != nil {
-			for _, e := range t.Result.Events {
-				if strings.Contains(e.Type, "close") || strings.Contains(e.Type, "Close") {
-					for _, a := range e.Attributes {
-						fmt.Printf("h=%d %s %s=%.600s\n", blk.Height, e.Type, a.Key, a.Value)
-					}
+		fmt.Printf("TX %s ok=%v %.300s\n", t.MsgType(), t.OK(), fmt.Sprint(t.Msgs))
+	}
+	if blk.Res != nil {
+		for _, e := range blk.Res.Events {
+			if strings.Contains(e.Type, "swap") || strings.Contains(e.Type, "transfer") {
+				s := e.Type + ": "
+				for _, a := range e.Attributes {
+					s += a.Key + "=" + a.Value + " "
 				}
+				fmt.Printf("EV %.400s\n", s)
 			}
 		}
 	}
 }
 
 func main() {
-	j := run.Job{Prop: "C08", Scenario: "vault", Index: 2, Seed: 1, Tier: "quick"}
+	j := run.Job{Prop: "C03", Scenario: "swap-batch", Index: 1, Seed: 1, Tier: "quick"}
 	run.AttachHook = func(w *chain.World) { w.AddProbe(probe{}) }
 	r := run.RunJob(j)
 	fmt.Println(r.Extra, r.NViolations)
